@@ -376,6 +376,17 @@ def symbolize_report(text):
   return '\n'.join(out)
 
 
+def is_repo_path(path, repo):
+  """Source file of the tree under test? The object cache is content-addressed, so debug info may name the checkout in
+  which an identical file was compiled first (/repo or a mutation worktree that no longer exists)."""
+  if path.startswith(repo + '/') or path.startswith('/repo/'):
+    return True
+  if path.startswith(vb.VERIF + '/') or path.startswith('/usr/'):
+    return False
+  m = re.search(r'/(src|include|plugin)/(.*)$', path)
+  return bool(m) and os.path.exists(os.path.join(repo, m.group(1), m.group(2)))
+
+
 def classify_report(text):
   """-> dict(kind, where, frames, bucket, fingerprint, summary). where: repo | shim | harness | none | inconclusive"""
   text = symbolize_report(text)
@@ -428,7 +439,7 @@ def classify_report(text):
   frames = frames[:60]
   names = []
   for fn, path in frames:
-    if path.startswith(repo + '/') or path.startswith('/repo/'):
+    if is_repo_path(path, repo):
       if out['where'] == 'none':
         out['where'] = 'repo'
       if out['where'] == 'repo':
@@ -450,13 +461,13 @@ def classify_report(text):
     # a DOM accessor (XMLElement::Attribute, FirstChildElement, ...) called on a NULL element: the real tinyxml2 faults in
     # exactly the same way, the defect is in the caller. Attribute it to the first non-shim frame.
     rest = [(fn, path) for fn, path in frames if not path.startswith(vb.SHIMS + '/')]
-    if rest and (rest[0][1].startswith(repo + '/') or rest[0][1].startswith('/repo/')):
+    if rest and is_repo_path(rest[0][1], repo):
       out['where'] = 'repo'
-      names = ['null-element'] + [short_fn(fn) for fn, path in rest if path.startswith(repo + '/') or path.startswith('/repo/')]
+      names = ['null-element'] + [short_fn(fn) for fn, path in rest if is_repo_path(path, repo)]
   key = '|'.join(names[:2])       # the two innermost frames of the tree: the call path above them varies for one defect
   if out['kind'] == 'stack-overflow':
     # the innermost frames of a runaway recursion are arbitrary: use the functions of the cycle instead
-    cyc = collections.Counter(short_fn(fn) for fn, path in frames if path.startswith(repo + '/') or path.startswith('/repo/'))
+    cyc = collections.Counter(short_fn(fn) for fn, path in frames if is_repo_path(path, repo))
     rec = sorted(n for n, c in cyc.items() if c >= 3)[:3]
     key = '|'.join(rec or [n for n, c in cyc.most_common(1)])
   out['bucket'] = out['fingerprint'] = 'asan:%s:%s' % (out['kind'], key)
@@ -1222,6 +1233,14 @@ def part_b(ck, S, g, exe_rel, exe_fuzz):
     i = pos[0]
     pos[0] += 1
     site = plan[i % len(plan)]
+    # a rejection with a semantic message cannot be attributed to the injected violation (the reader may have stopped at
+    # something else first): such a site gets up to two more base documents
+    for attempt in range(3):
+      if one_pair(i, site, (seed + 104729 * attempt) % (2 ** 32)) != 'rejected-by-semantic':
+        break
+      stats['retries_after_semantic_rejection'] += 1
+
+  def one_pair(i, site, seed):
     rng = random.Random(seed)
     doc = g.conforming(rng, rng.randint(0, 5))
     node = g.graft(rng, doc, site.ctx, dense=rng.random() < 0.3)
@@ -1247,7 +1266,7 @@ def part_b(ck, S, g, exe_rel, exe_fuzz):
     if info is None:
       ck.discard('site-not-applicable')
       ck.case(nontrivial=False, labels=labels)
-      return
+      return None
     if not info['errors']:
       raise RuntimeError('gen_schema: injected violation %s is not seen by the reference validator\n%s' % (info, vdoc.render()))
     vx = vdoc.render()
@@ -1308,6 +1327,7 @@ def part_b(ck, S, g, exe_rel, exe_fuzz):
     sample = dict(kind=kind, element=info['element'], path=info['path'], detail=info['detail'], depth=info['depth'],
                   verdict=verdict, message=rv.perr[:160], xml=vx[:700]) if nt else None
     ck.case(nontrivial=nt, key=vx, sample=sample, labels=labels)
+    return verdict
 
   n = len(plan) if ck.quick else len(plan)
   n = max(1, int(n * float(os.environ.get('VERIF_SCALE', '1'))))
